@@ -22,19 +22,19 @@ import (
 // the analysed program is executed; reads of tables use their initialisers.
 
 type fval struct {
-	kind byte // 'i' int, 'b' bool, 's' string, 't' tuple, 'a' array, 'm' map, 'e' error (b: non-nil), 'f' function, 'p' address of a local object, 'l' slice of a local array
-	fn   *ssa.Function
-	obj  int   // p, l: object id
-	sel  []int // p, l: selector path inside the object
+	kind   byte // 'i' int, 'b' bool, 's' string, 't' tuple, 'a' array, 'm' map, 'e' error (b: non-nil), 'f' function, 'p' address of a local object, 'l' slice of a local array
+	fn     *ssa.Function
+	obj    int   // p, l: object id
+	sel    []int // p, l: selector path inside the object
 	lo, hi int64 // l: bounds
-	i    int64
-	u    bool // unsigned
-	bits int
-	b    bool
-	s    string
-	tup  []fval
-	arr  []fval
-	m    map[int64]fval
+	i      int64
+	u      bool // unsigned
+	bits   int
+	b      bool
+	s      string
+	tup    []fval
+	arr    []fval
+	m      map[int64]fval
 }
 
 type foldStop struct {
